@@ -252,6 +252,12 @@ Theorem C19_printed_conversions_inverse :
 Proof. split; [exact printed_uint32_inverse|exact printed_int32_inverse]. Qed.
 Print Assumptions C19_printed_conversions_inverse.
 
+(* the same for the byte view of a register list: the printed Uint16Array undoes the printed PutUint16Array *)
+Theorem C19_printed_uint16_array_inverse : forall vs, Forall u16_ok vs -> len_ok2 vs ->
+  exists d, srun go_modbus_PutUint16Array [map Z.of_N vs] = Some d /\ srun go_modbus_Uint16Array [d] = Some (map Z.of_N vs).
+Proof. exact printed_uint16_array_inverse. Qed.
+Print Assumptions C19_printed_uint16_array_inverse.
+
 (* the premises are satisfiable and the printed functions run: two registers to one value and back, both word orders *)
 Example C19_conv_from_source_example :
   srun go_modbus_RegsToUint32 [[4660; 22136]%Z] = Some [305419896%Z] /\
